@@ -83,17 +83,19 @@ def main() -> int:
         if confirmed:
             dst = os.path.join(VERIF, "seeded", f"{a.prop}_{a.variant}")
             os.makedirs(dst, exist_ok=True)
-            shutil.copy(patch, os.path.join(dst, "patch.diff"))
-            shutil.copy(demo, os.path.join(dst, "demo.py"))
-            if os.path.exists(os.path.join(src, "notes.md")):
-                shutil.copy(os.path.join(src, "notes.md"), os.path.join(dst, "notes.md"))
+            if os.path.realpath(src) != os.path.realpath(dst):
+                shutil.copy(patch, os.path.join(dst, "patch.diff"))
+                shutil.copy(demo, os.path.join(dst, "demo.py"))
+                if os.path.exists(os.path.join(src, "notes.md")):
+                    shutil.copy(os.path.join(src, "notes.md"), os.path.join(dst, "notes.md"))
             old = {}
             mp = os.path.join(dst, "meta.json")
             if os.path.exists(mp):
                 old = json.load(open(mp))
             hist = old.get("history", [])
             hist.append({k: meta[k] for k in ("evaluated_at", "tier", "checks", "caught_by")})
-            out_meta = {
+            out_meta = dict(old)
+            out_meta.update({
                 "property": a.prop,
                 "variant": a.variant,
                 "breaks": a.prop,
@@ -104,7 +106,9 @@ def main() -> int:
                 ] + [f"{PY} -m vpbt {c} --tier {a.tier} (VERIF_REPO=patched copy) -> rc {r['rc']} {r['signatures']}" for c, r in results.items()],
                 "caught_by": caught,
                 "history": hist,
-            }
+            })
+            if "caught_at_first_evaluation" not in out_meta:
+                out_meta["caught_at_first_evaluation"] = bool(hist[0]["caught_by"])
             if a.no_suite and "what_was_run" in old:
                 out_meta["what_was_run"] = old["what_was_run"][:3] + out_meta["what_was_run"][3:]
             json.dump(out_meta, open(mp, "w"), indent=1)
